@@ -4,7 +4,7 @@
 import os, sys
 sys.path.insert(0, os.path.dirname(os.path.abspath(__file__)))
 import dispatch_ext as _de
-from derived_common import newtype_items, INT_SHIMS, r17_chunks
+from derived_common import newtype_items, INT_SHIMS, r17_chunks, PARITY_LOCAL
 
 F_EXT = "src/tls_extensions.rs"
 _types = [it for it in _de.UNIT["items"] if it["kind"] in ("struct", "enum", "newtype_enum")]
@@ -175,7 +175,7 @@ UNIT = {
                      {"after": r"let \(i, v\) = [^;]*;", "text": "    let ghost vv = v@;\n    proof { assert(vv =~= i0.subrange(1, 1 + i0[0] as int)); assert(i@ =~= i0.subrange(1 + i0[0] as int, i0.len() as int)); }"}],
          # R11 on the returned expression: the copied vector bound to a local so that the hint can name it
          "subst": [(r"Ok\(\(i, TlsExtension::PskExchangeModes\(v\.to_vec\(\)\)\)\)", "let vec_copy = v.to_vec();\n    proof { assert forall|k: int| 0 <= k < vv.len() implies vec_copy@[k] == vv[k] by { assert(call_ensures(u8::clone, (&v@[k],), vec_copy@[k])); } assert(vec_copy@ =~= vv); }\n    Ok((i, TlsExtension::PskExchangeModes(vec_copy)))")]},
-        {"file": "src/tls_handshake.rs", "kind": "fn", "name": "parse_tls_versions", "contract": "    ensures versions_post(i@, r),",
+        {"file": "src/tls_handshake.rs", "kind": "fn", "name": "parse_tls_versions", "splices": PARITY_LOCAL, "contract": "    ensures versions_post(i@, r),",
          "subst": [(r"pub\(crate\) fn parse_tls_versions", "pub fn parse_tls_versions"), r17_chunks("TlsVersion")]},   # R17
         {"file": F_EXT, "kind": "fn", "name": "parse_tls_extension_supported_versions_content", "contract": "    ensures supported_versions_post(i@, ext_len, r),",
          "subst": [(r"fn parse_tls_extension_supported_versions_content\(\s*i: &\[u8\],\s*ext_len: u16,\s*\) -> IResult<&\[u8\], TlsExtension>", "fn parse_tls_extension_supported_versions_content<'a>(i: &'a [u8], ext_len: u16) -> IResult<&'a [u8], TlsExtension<'a>>"),
@@ -201,7 +201,7 @@ UNIT = {
          "splices": [{"at_start": True, "text": "    let ghost i0 = i@;\n    proof { reveal_with_fuel(be_val, 3); }"},
                      {"after": r"let \(i, _\) = be_u8\(i\)\?;", "text": "    proof { assert(i@ =~= i0.subrange(1, i0.len() as int)); }"},
                      {"after": r"let \(i, l\) = [^;]*;", "text": "    proof { let n = ext_len as int - 1; assert(i@ =~= i0.subrange(1 + n, i0.len() as int)); }"}]},
-        {"file": "src/tls_ec.rs", "kind": "fn", "name": "parse_named_groups", "subst": [r17_chunks("NamedGroup")], "contract": "    ensures groups_post(i@, r),"},   # R17
+        {"file": "src/tls_ec.rs", "kind": "fn", "name": "parse_named_groups", "splices": PARITY_LOCAL, "subst": [r17_chunks("NamedGroup")], "contract": "    ensures groups_post(i@, r),"},   # R17
         {"file": F_EXT, "kind": "fn", "name": "parse_tls_extension_elliptic_curves_content", "contract": "    ensures curves_post(i@, r),",
          "subst": [(r"fn parse_tls_extension_elliptic_curves_content\(i: &\[u8\]\) -> IResult<&\[u8\], TlsExtension>", "fn parse_tls_extension_elliptic_curves_content<'a>(i: &'a [u8]) -> IResult<&'a [u8], TlsExtension<'a>>"),
                    # R10: constructor eta-expanded; R11: the returned expression bound to a local first
